@@ -55,6 +55,7 @@ class GhostFile(sym.Abstract):
         self.toks = z3.Empty(SeqT)
         self.last_atom = z3.BoolVal(False)
         self.pending = z3.BoolVal(False)  # a comment waits for its newline
+        self.track_comments = True
         self.bad = []
 
     def havoc(self, p):
@@ -100,7 +101,8 @@ class GhostFile(sym.Abstract):
                        'between them'})
         self.toks = z3.Concat(self.toks, z3.Unit(Tok.atom(s)))
         self.last_atom = z3.BoolVal(True)
-        self.pending = is_comment
+        self.pending = is_comment if self.track_comments else \
+            z3.BoolVal(False)
 
     def write(self, s):
         p = cur()
@@ -132,7 +134,8 @@ def setup(eng):
     eng.spec_required.add(WW)
 
 
-def install_loop(eng, fn, extra_havoc=()):
+def install_loop(eng, fn, extra_havoc=(), filevar='file', itemvar='ex',
+                 prefix=None):
     """LoopSpec of ``while visit`` in one of the two stack renderers."""
 
     def item_den(it):
@@ -178,12 +181,14 @@ def install_loop(eng, fn, extra_havoc=()):
         env_.vars['needs_space'] = sym.mk_bool(p.fresh_bool('needs_space'))
         for nm_ in extra_havoc:
             env_.vars[nm_] = sym.SNum(p.fresh_int(nm_))
-        env_.vars['file'].havoc(p)
+        f = as_ghost(p, env_.vars[filevar], prefix)
+        env_.vars[filevar] = f
+        f.havoc(p)
 
     def inv(e, env_):
         p = cur()
         v = env_.vars['visit']
-        f = env_.vars['file']
+        f = as_ghost(p, env_.vars[filevar], prefix)
         if isinstance(v, list):
             v = wl.as_abs(e, v)
         if not isinstance(v, wl.AbsList) or not isinstance(f, GhostFile):
@@ -195,7 +200,7 @@ def install_loop(eng, fn, extra_havoc=()):
                 ('C07', z3.Not(f.pending))]
 
     def covers(e, env_, p):
-        x = env_.vars.get('ex')
+        x = env_.vars.get(itemvar)
         what = 'closing-marker' if x is None else (
             'leaf' if isinstance(x.attrs.get('data'), (str, SStr))
             else 'list')
@@ -204,8 +209,31 @@ def install_loop(eng, fn, extra_havoc=()):
 
     eng.loop_specs[(fn, 'while visit')] = LoopSpec(
         inv=inv, havoc={'effect:state': havoc},
-        sets=('visit', 'needs_space') + tuple(extra_havoc),
+        sets=('visit', 'needs_space', filevar) + tuple(extra_havoc),
         on_iter_end=covers)
+
+
+def as_ghost(p, f, prefix):
+    """The list of pieces of Node.__str__ as a ghost file."""
+    if isinstance(f, list):
+        g = GhostParts(p, prefix)
+        for piece in f:
+            g.write(piece)
+        return g
+    return f
+
+
+class GhostParts(GhostFile):
+    """``parts = []; parts.append(piece); ''.join(parts)`` -- str(node)
+    renders tokens; ending a comment is the business of the renderers (a
+    comment inside a list carries its line break)."""
+
+    def __init__(self, p, prefix):
+        GhostFile.__init__(self, p, prefix)
+        self.track_comments = False
+
+    def append(self, s):
+        self.write(s)
 
 
 def setup_w(eng):
@@ -482,6 +510,7 @@ def top_contracts(tier):
 # all-leaves shortcut through Node.__str__
 
 WP = 'ddsmt.nodeio.__write_smtlib_pretty'
+NS = 'ddsmt.nodes.Node.__str__'
 ALLLEAF = z3.Function('ALLLEAF', SeqS, z3.BoolSort())
 
 
@@ -562,17 +591,18 @@ def setup_wp(eng):
         return all0(e, it)
 
     def str_join(e, sep, it):
-        if isinstance(it, AbsMapST):
-            if it.f is not str or sep != ' ':
-                raise sym.Unsupported('join over children with another '
-                                      'function than str / separator')
-            # induction hypothesis: str(child) renders the tokens of the
-            # child; joined by blanks they render FLATL(children)
-            p = cur()
-            r = Rendered(p, FLATL(it.t.seq_term()), z3.BoolVal(False))
-            p.ghost.setdefault('rendered', {})[str(r.parts[0][1])] = r
-            return r
         return join0(e, sep, it)
+
+    # Node.__str__ through its contract (verified: contract Node.__str__)
+    def node_str(e, node):
+        p = cur()
+        if isinstance(e.getattr(node, 'data'), (str, SStr)):
+            return node.attrs['data']
+        r = Rendered(p, FLAT(nm.S(node)), z3.BoolVal(False))
+        p.ghost.setdefault('rendered', {})[str(r.parts[0][1])] = r
+        return r
+
+    eng.overrides[NS] = node_str
 
     eng.native_handlers[_hkey(map)] = b_map
     eng.native_handlers[_hkey(all)] = b_all
@@ -666,19 +696,61 @@ def setup_wp(eng):
         on_iter_end=covers)
 
 
+def setup_ns(eng):
+    setup(eng)
+    eng.spec_required.add(NS)
+    install_loop(eng, NS, filevar='parts', itemvar='cur',
+                 prefix='C07/Node.__str__')
+    join0 = eng.method_handlers[(str, 'join')]
+
+    def str_join(e, sep, it):
+        if isinstance(it, list) and sep == '':
+            it = as_ghost(cur(), it, 'C07/Node.__str__')
+        if isinstance(it, GhostParts):
+            if sep != '':
+                raise sym.Unsupported('join of the pieces with a separator')
+            return it.getvalue()
+        return join0(e, sep, it)
+
+    eng.method_handlers[(str, 'join')] = str_join
+
+
+def run_ns(eng, p):
+    n = nm.lazy_node(eng, p, 'root')
+    p.ghost['target'] = FLAT(nm.S(n))
+    unfold_flat(p, nm.S(n))
+    cls = nm.node_class(eng)
+    f, _ = cls.lookup('__str__')
+    err = None
+    r = None
+    try:
+        r = eng.call(f, [n], {})
+    except PyRaise as ex:
+        err = ex
+    p.oblige('C04/Node.__str__/raises-nothing', err is None,
+             info={'outcome': repr(err.value) if err else '',
+                   'signature': type(err.value).__name__ if err else ''})
+    if err is None:
+        p.oblige('C07/Node.__str__/renders-exactly-the-tokens-of-the-tree',
+                 isinstance(r, Rendered) and mk_bool(
+                     r.toks == FLAT(nm.S(n))),
+                 info={'signature': 'str(node) does not consist of the '
+                       'tokens of the node, each once, in order'})
+
+
 def pretty_contracts(tier):
     A = ['specification functions FLAT/FLATL uninterpreted, unfolded for the '
          'node taken from the work list (FLATL also at its first element)',
          'work lists are abstract lists (contracts/worklist.py)',
          nm.ASSUME_LAZY, 'the file object is a ghost',
          'the indentation is a string of blanks of unknown length',
-         'Node.__str__ of a list whose children are all leaves renders the '
-         'tokens of the children in order, separated by blanks (induction '
-         'over the children; join fold not machine-checked); a comment '
-         'inside a list ends with its line break']
+         'Node.__str__ through its contract (verified: contract '
+         'Node.__str__); a comment inside a list ends with its line break']
     rp = wl.harness_replay('harness/parser_native.py', ['render', 4],
                            ['C07'])
     return [
+        Contract('Node.__str__', [NS], run_ns, setup=setup_ns,
+                 assumptions=A[:4], replay=rp),
         Contract('__write_smtlib_pretty', [WP],
                  make_run('__write_smtlib_pretty', '__write_smtlib_pretty'),
                  setup=setup_wp, assumptions=A, replay=rp),
